@@ -175,7 +175,8 @@ def mesh_plane(
         # dot product of each vertex with the plane normal indexed by face
         # so for each face the dot product of each vertex is a row
         # shape is the same as mesh.faces (n,3)
-        dots = np.dot(mesh.vertices - plane_origin, plane_normal)
+        # use the unit normal so `tol.merge` is a distance whatever the length passed
+        dots = np.dot(mesh.vertices - plane_origin, util.unitize(plane_normal))
 
     # sign of the dot product is -1, 0, or 1
     # shape is the same as mesh.faces (n,3)
@@ -470,7 +471,8 @@ def slice_faces_plane(
         # dot product of each vertex with the plane normal indexed by face
         # so for each face the dot product of each vertex is a row
         # shape is the same as faces (n,3)
-        dots = np.dot(vertices - plane_origin, plane_normal)
+        # use the unit normal so `tol.merge` is a distance whatever the length passed
+        dots = np.dot(vertices - plane_origin, util.unitize(plane_normal))
 
     # Find vertex orientations w.r.t. faces for all triangles:
     #  -1 -> vertex "inside" plane (positive normal direction)
